@@ -42,10 +42,43 @@ def exec_c11(scn) -> list[dict]:
     from reamber.algorithms.timing.utils.reseat_bpm_changes_snap import reseat_bpm_changes_snap
     recs = []
     t0 = scn.get("t0", 0)
-    for via in scn.get("vias", ["fn", "tm", "tm.reseat", "fn_twice"]):
+    vias = list(scn.get("vias", ["fn", "tm", "tm.reseat", "fn_twice"]))
+    dup = any((a["m"], a["b"]) == (b["m"], b["b"]) for a, b in zip(scn["tl"], scn["tl"][1:]))
+    if "tm.reseat" in vias:
+        if not dup:      # (among changes at one time the list order says which is in force: shuffling would change the input)
+            vias.append("tm.unsorted_reseat")
+        if all(c["b"] == 0 and c["bl"] % (2 * scn["G"]) == 0 for c in scn["tl"]):
+            vias.append("tm.edit_reseat")
+    for via in vias:
         r = {"id": f"{scn['id']}/{via}", "op": "reseat", "via": via, "cls": scn.get("cls", "grid2"), "G": scn["G"],
              "tl": scn["tl"], "out": [], "ot": [], "exc": ""}
         try:
+            if via == "tm.unsorted_reseat":
+                # history: the map's change list is not in time order (raw constructor / a point added later)
+                import copy
+                tm0 = TimingMap.from_bpm_changes_snap(ms(t0), _mk(scn), reseat=False)
+                pts = [copy.copy(b) for b in tm0.bpm_changes_offset]
+                tm = TimingMap(bpm_changes_offset=pts[1:] + pts[:1] if len(pts) > 2 else list(reversed(pts))).reseat()
+                r["via"] = "tm.reseat"
+            elif via == "tm.edit_reseat":
+                # history: a seated map is queried, then every point is re-tuned in place to twice its bpm (each old
+                # measure becomes two, so the map stays seated), then reseated: judged as the reseating of that new list
+                tm = TimingMap.from_bpm_changes_snap(ms(t0), _mk(scn), reseat=False)
+                tm.bpm_changes_snap()
+                tm.reseat()
+                for b in tm.bpm_changes_offset:
+                    b.bpm = b.bpm * 2
+                r["tl"] = [dict(c, m=2 * c["m"], bl=c["bl"] // 2) for c in scn["tl"]]
+                tm = tm.reseat()
+                r["via"] = "tm.reseat"
+            if via in ("tm.unsorted_reseat", "tm.edit_reseat"):
+                r["cls"] += "." + via.split(".")[1]
+                r["out"] = _proj_snaps(tm.bpm_changes_snap())
+                r["ot"] = [ticks(b.offset) - t0 for b in tm.bpm_changes_offset]
+                for o, b in zip(r["out"], tm.bpm_changes_offset):
+                    o["bl"] = _bl_ticks(b.bpm)
+                recs.append(r)
+                continue
             if via == "fn":
                 r["out"] = _proj_snaps(reseat_bpm_changes_snap(_mk(scn)))
             elif via == "fn_twice":
@@ -88,7 +121,8 @@ def random_scenarios(n, tier):
                 if seated:
                     m, b = m + r.randint(1, 3), 0
                 else:
-                    adv = r.randint(1, 2 * pm * G)
+                    # (now and then a change overrides the one before it on the spot)
+                    adv = 0 if (i % 4 == 1 and r.random() < 0.4) else r.randint(1, 2 * pm * G)
                     tot = b + adv
                     m, b = m + tot // (pm * G), tot % (pm * G)
             tl.append({"m": m, "b": b, "bl": bl, "met": met})
